@@ -49,14 +49,15 @@ CLAUSES = [
 PROP = "C06"
 HEADER = "Require Import PF.Lib.PySlice PF.Model.Ragged PF.Model.RaggedRun PF.Model.RaggedCat PF.Model.RaggedStore."
 MODEL_TARGETS = ["Model/RaggedCat.vo", "Model/RaggedStore.vo"]
-SHARD = 330
+SHARD = 270
 RULE = ("expression trees over MultiNestedTensor / MultiEmbeddingTensor (bases 1-5 x 1-4 with unique-id payloads, "
         "selections, cat on both axes via the static methods and torch_frame.cat, fillna_col, clone, to_dense); "
         "distinct = distinct (kind, dtype, scenario, tree shape with index kinds and part count, shapes of every "
         "node's result, ok/err); non-trivial = the root result has at least one cell or is an expected rejection")
 TRUSTED = [
     "Coq 8.16.1 kernel + vm_compute (no native_compute)",
-    "hand-written model coq/Model/RaggedCat.v (+ Model/Ragged.v for constructors and selections) of "
+    "hand-written models coq/Model/RaggedCat.v and coq/Model/RaggedStore.v (+ Model/Ragged.v for constructors and "
+    "selections) of "
     "multi_nested_tensor.py / multi_embedding_tensor.py / multi_tensor.py / utils/concat.py, tied to /repo by this "
     "run's observational correspondence",
     "modelled primitives: torch.cat of 1-D/2-D tensors, slice assignment, index_put_ (scatter) with bounds and "
@@ -65,9 +66,14 @@ TRUSTED = [
     "harness/c06.py + harness/ragged.py (generator, nested-list oracle, Coq literal printer)",
 ]
 ASSUMPTIONS = [
-    "'clone shares no storage' is observed (untyped_storage data_ptr of values and offset), not proved",
-    "in-place mutation (fillna_col) is modelled as returning the mutated container; write-through to other views "
-    "of the same storage is outside the pure model (every fill in a case acts on storage no other node reads)",
+    "'clone shares no storage', 'cat does not modify its arguments' and 'fillna_col writes only the window of its "
+    "object' are theorems over the store model coq/Model/RaggedStore.v (objects view numbered storages); which "
+    "selections return views / the same object / fresh storage is part of that model and is tied to the library by "
+    "the 'store' programs of every run (all variables re-read after in-place writes) and by untyped_storage "
+    "pointers of clones; offset tensors are treated as immutable values (no operation in scope writes an "
+    "existing offset tensor)",
+    "in the expression-tree cases (all scenarios but 'store') every fill acts on storage no other node reads, so "
+    "the pure model suffices there",
     "payload scalars are opaque: ints and float64 (NaN included) are moved and compared with the missing marker, "
     "never computed on",
     "fill values are drawn from the container's dtype only (ints for int64 containers, float64 incl. NaN for "
@@ -607,6 +613,8 @@ def decorate(rng, case):
             node["form"] = rng.pick(forms)
         elif t == "dictcat":
             node["parts"] = [{k: deco(v) for k, v in dct.items()} for dct in node["parts"]]
+            node["form"] = rng.pick(["kw", "pos"])
+            node["seq"] = rng.pick(["list", "tuple"])
         if kind in ("mnt", "met") and t in ("base", "ref", "sel", "cat", "clone") and rng.chance(0.05):
             node = {"t": "ident", "s": node, "how": rng.pick(["cpu", "to", "todict"])}
         return node
@@ -618,7 +626,7 @@ def decorate(rng, case):
 
 
 def generate(rng, tier):
-    n = 1800 if tier == "quick" else 30000
+    n = 1600 if tier == "quick" else 30000
     cases = [decorate(rng, gen_case(rng, tier)) for _ in range(n)]
     if tier == "thorough":
         cases += small_scope(tier)
@@ -1064,7 +1072,8 @@ def run_dict(case, out):
         out["failed_at"] = nf.path
         return out
     try:
-        r = torch_frame.cat(parts, dim=expr["dim"])
+        args = tuple(parts) if expr.get("seq") == "tuple" else parts
+        r = torch_frame.cat(args, expr["dim"]) if expr.get("form") == "pos" else torch_frame.cat(args, dim=expr["dim"])
     except Exception as ex:
         out["dict"] = {"ok": False, "exc": C.exc_name(ex)}
         return out
